@@ -5,9 +5,11 @@ use serde_json::Map;
 use crate::{
     callstack::{CallStack, Thread},
     choice::Choice,
+    choice_point::ChoicePoint,
     container::Container,
     json::{json_read, json_write},
     object::RTObject,
+    path::Path,
     story_error::StoryError,
 };
 
@@ -57,6 +59,22 @@ impl Flow {
             .map(|o| o.clone().into_any().downcast::<Choice>().unwrap())
             .collect::<Vec<Rc<Choice>>>(),
         };
+
+        // The save format does not record whether a pending choice is an invisible
+        // default (fallback) choice; recover it from the choice point it came from,
+        // otherwise a restored fallback would be offered to the player as a choice
+        // with empty text.
+        for choice in flow.current_choices.iter_mut() {
+            let source = Path::new_with_components_string(Some(&choice.source_path));
+            let found = main_content_container.content_at_path(&source, 0, -1);
+            if !found.approximate
+                && let Ok(choice_point) = found.obj.into_any().downcast::<ChoicePoint>()
+                && choice_point.is_invisible_default()
+                && let Some(choice) = Rc::get_mut(choice)
+            {
+                choice.is_invisible_default = true;
+            }
+        }
 
         flow.callstack.borrow_mut().load_json(
             &main_content_container,
